@@ -186,3 +186,39 @@ pub fn parse_ids(v: &serde_json::Value) -> Option<Vec<u64>> {
 pub fn decode_all(ids: &[u64]) -> Result<Vec<MCell>, u64> {
     ids.iter().map(|&i| decode(i).ok_or(i)).collect()
 }
+
+/// History priming: immediately before a cell is judged, ask for the geometry of a *relative* of it - the same curve position on
+/// another face / quintant (another curve orientation), the same face, quintant and position number at another resolution, its
+/// parent or its first child. A pure function cannot be affected; a last-value memo with an incomplete key is.
+pub fn prime_history(rng: &mut crate::rng::Rng, c: MCell) {
+    if c.res < 2 {
+        return;
+    }
+    let relative = match rng.below(4) {
+        0 => {
+            let t = rng.below(60) as u8;
+            MCell::new(c.res, t / 5, t % 5, c.s)
+        }
+        1 => {
+            let r = (c.res + 1 + rng.below(5) as i32).min(MAX_RES);
+            MCell::new(r, c.face, c.q, c.s)
+        }
+        2 => {
+            let r = (c.res - 1 - rng.below(4) as i32).max(2);
+            let bits = 2 * (r - 1) as u32;
+            MCell::new(r, c.face, c.q, if bits >= 64 { c.s } else { c.s & ((1u64 << bits) - 1) })
+        }
+        _ => {
+            if rng.chance(0.5) || c.res >= MAX_RES {
+                parent_at(c, c.res - 1).unwrap_or(c)
+            } else {
+                children_at(c, c.res + 1)[0]
+            }
+        }
+    };
+    let id = encode(relative);
+    let _ = guard(|| a5::cell_to_lonlat(id));
+    if rng.chance(0.5) {
+        let _ = guard(|| a5::cell_to_boundary(id, Some(a5::core::cell::CellToBoundaryOptions { closed_ring: false, segments: Some(1) })));
+    }
+}
